@@ -74,7 +74,7 @@ def make_map(rng, t):
     mapping = {}
     for _ in range(rng.choice([0, 1, 1, 2, 3, 4])):
         key, cl = rng.choice(cands)
-        if key in mapping or key[0] == "id" and key[2]:
+        if key in mapping:
             continue
         if key[0] == "id" and False:
             continue
